@@ -55,7 +55,7 @@ def describe() -> dict:
             "incl. optionally empty; floats incl. inf/nan/-0.0; enum literals) of a generated "
             "and imported Python SDK of a corpus model, written with xmlization.write and read "
             "back whole (from_str) and through from_stream under 8 (quick) / 24 (thorough) "
-            "seeded chunkings; plus one labelled edit (14 kinds of well-formed mistyped "
+            "seeded chunkings and (every 2nd run) through from_file with short raw reads of 1..64 bytes; plus one labelled edit (14 kinds of well-formed mistyped "
             "documents) and one corruption (4 kinds, not well-formed), each delivered whole "
             "and in chunks; plus JSON round trip and one mutated jsonable. distinct = distinct "
             "(model, root class, document shape with text erased) triples delivered in >= 2 chunkings."
@@ -63,7 +63,8 @@ def describe() -> dict:
         "real": ["python target of aas_core_codegen generating the SDK from the working tree",
                  "the generated types/xmlization/jsonization modules, imported in-process",
                  "xml.etree.ElementTree.iterparse + expat"],
-        "stub": ["the caller's stream: a TextIO whose read(n) returns seeded short reads"],
+        "stub": ["the caller's stream: a TextIO whose read(n) returns seeded short reads",
+                 "for from_file: the kernel's raw-file seam (short raw reads under the real TextIOWrapper/BufferedReader)"],
         "assumptions": [
             "input that is not well-formed XML is no 'XML document': xml.etree.ElementTree.ParseError is accepted next to DeserializationException there",
             "only corpus models for which the python target generates an importable SDK are used (23 small ones with the single qualified_module_name snippet + aas_core_meta.v3 with its fixture snippets)",
@@ -431,6 +432,53 @@ def execute(plan: dict) -> dict:
                 break
     if n_chunkings >= 2:
         out["distinct"] = [shape]
+
+    # ---- valid document from a *file* whose raw reads are short (kernel seam): from_file
+    # decodes UTF-8 itself, so multi-byte sequences get split across raw reads
+    if kind == "ok" and plan["run"] % 2 == 0 and not violations:
+        frng = random.Random(plan["instance_seed"] ^ 0x5F1E)
+        sb = kernel.Sandbox()
+        try:
+            path = sb.path("out", "instance.xml")
+            with kernel.real_open(path, "w", encoding="utf-8", newline="") as f:
+                f.write(doc)
+            sim = kernel.Sim(sb, seed_text=f"{plan['seed']}:C10:{plan['run']}:file",
+                             sched_roles=(), fault_roles=("out",), faults=[], schedule=[],
+                             bufsize=frng.choice([1, 2, 3, 5, 16, 100, 8192]),
+                             max_io=frng.choice([1, 2, 3, 7, 64, 1 << 20]), step_cap=400000)
+            box: Dict[str, Any] = {}
+
+            def fn() -> None:
+                import pathlib
+                import xml.etree.ElementTree as ET
+
+                try:
+                    box["r"] = ("ok", sdkm.xmlization.from_file(pathlib.Path(path)))
+                except sdkm.xmlization.DeserializationException as error:
+                    box["r"] = ("deser", str(error)[:200])
+                except ET.ParseError as error:
+                    box["r"] = ("parse", str(error)[:200])
+
+            actor = sim.spawn("reader", fn)
+            sim.run()
+            stats["file_deliveries"] = 1
+            stats["seam_steps"] = stats.get("seam_steps", 0) + sim.seq
+            stats["fault:short_raw_read"] = stats.get("fault:short_raw_read", 0) + sum(
+                1 for e in sim.trace if e[2] == "read")
+            if not sim.capped:
+                if actor.exc is not None:
+                    v(f"xml-file-wrong-exception:{actor.exc[0]}",
+                      f"from_file on a valid document raised {actor.exc[0]}: {actor.exc[1][:200]}")
+                else:
+                    k4, b4 = box.get("r", ("other", None))
+                    if k4 != "ok":
+                        v("xml-file-rejects-valid-document",
+                          f"from_str accepts, from_file with short raw reads raises {k4}: {b4}")
+                    elif S.equal(sdkm, back, b4) is not None:
+                        v("xml-file-differs-from-whole",
+                          f"from_file with short raw reads differs from from_str at {S.equal(sdkm, back, b4)}")
+        finally:
+            sb.cleanup()
 
     # ---- mistyped (well-formed) document
     edited = apply_edit(doc, plan["edit"]) if whole_ok else None
